@@ -4,6 +4,7 @@ import Driver.C13
 import Driver.C12
 import Driver.C17
 import Driver.C15
+import Driver.C07
 open Driver
 
 def dispatch (id : String) (toks : List String) (impl : String) : Verdict :=
@@ -13,6 +14,7 @@ def dispatch (id : String) (toks : List String) (impl : String) : Verdict :=
   | "C12" => Driver.C12.handle toks impl
   | "C17" => Driver.C17.handle toks impl
   | "C15" => Driver.C15.handle toks impl
+  | "C07" => Driver.C07.handle toks impl
   | _ => badOp "unknown property"
 
 /-- Split `line` at the first occurrence of " => ". -/
